@@ -623,13 +623,33 @@ pub fn independent_file(
 	datums: &[Vec<u8>],
 	sync: &[u8],
 ) -> Vec<u8> {
+	independent_file_with(rng, codec, json, datums, sync, None)
+}
+
+/// `bulk = Some(n)`: `n` extra user entries `bulk.k0` … and the codec entry always present, so the
+/// metadata map has `n + 2` entries - around the 1000 the reader's header configuration allows
+/// (`max_seq_size = 1_000`, reader/mod.rs; theorems `C06_header_bytes_needs_max_seq` / `_sharp`)
+pub fn independent_file_with(
+	rng: &mut rand::rngs::StdRng,
+	codec: &str,
+	json: &str,
+	datums: &[Vec<u8>],
+	sync: &[u8],
+	bulk: Option<usize>,
+) -> Vec<u8> {
 	let mut f = b"Obj\x01".to_vec();
 	let mut entries: Vec<(Vec<u8>, Vec<u8>)> = vec![(b"avro.schema".to_vec(), json.as_bytes().to_vec())];
-	if codec != "null" || rng.gen_bool(0.5) {
+	if codec != "null" || bulk.is_some() || rng.gen_bool(0.5) {
 		entries.push((b"avro.codec".to_vec(), codec.as_bytes().to_vec()));
 	}
-	for i in 0..rng.gen_range(0..3) {
-		entries.push((format!("extra.key{i}").into_bytes(), gen_bytes(rng)));
+	if let Some(n) = bulk {
+		for i in 0..n {
+			entries.push((format!("bulk.k{i}").into_bytes(), vec![i as u8]));
+		}
+	} else {
+		for i in 0..rng.gen_range(0..3) {
+			entries.push((format!("extra.key{i}").into_bytes(), gen_bytes(rng)));
+		}
 	}
 	entries.shuffle(rng);
 	let mut i = 0;
@@ -1017,6 +1037,10 @@ pub fn generate_r(stream: &str, seed: u64, n: usize, emit: &mut dyn FnMut(String
 					continue;
 				}
 			}
+		} else if stream == "ocfr" && rng.gen_ratio(1, 16) {
+			// a metadata map of 999 … 1002 entries: the header configuration's limit of 1000
+			let n = *[997usize, 998, 999, 1000].choose(&mut rng).unwrap();
+			independent_file_with(&mut rng, codec, schema.json(), &datums, &sync, Some(n))
 		} else {
 			independent_file(&mut rng, codec, schema.json(), &datums, &sync)
 		};
